@@ -249,7 +249,134 @@ for v in ck.violations:
         v['replayed'] = rep.get('equal') is False or bool(rep.get('panic'))
         v['native'] = rep
 
-ck.functions += ['varint_encode', 'varint_decode', 'delta_encode', 'delta_decode', 'compress_ids', 'decompress_ids',
+# --------------------------------------------------------------- F. TCP frame length handling (tensor_chain/src/tcp/framing.rs)
+exf = ck.executor('tensor_chain', unroll=24, max_paths=50000)
+Pf = exf.prog
+ck.declare('frame_v1', 'payload image of 0..3 bytes, any max_frame_length', 'encode = 4-byte big-endian payload length ++ payload, refused exactly when the payload exceeds max_frame_length; decode_payload(encode(m)[4..]) = m; decode refuses longer payloads')
+ck.declare('frame_v2', 'same, compression off and on (compressor uninterpreted, 1..3 output bytes)', 'encode_v2 = BE length of (flag byte + payload) ++ flag ++ payload, refused exactly when flag+payload exceeds the limit; decode_payload_v2 inverts it; an empty v2 payload is rejected')
+ck.bounds['tcp frames'] = 'serialized message image 0..3 bytes, max_frame_length any usize, compressed image 1..3 bytes; the async read/write loops are not executed'
+ck.assumptions.append('tcp framing: bitcode as image table, compression::compress/decompress as an uninterpreted invertible pair; read_frame*/write_frame* (async state machines) are not executed')
+FC = lambda n: Pf.field('LengthDelimitedCodec', n)
+CM = {n: Pf.variant_index('CompressionMethod', n) for n in ('None', 'Lz4')}
+
+
+def frun(st, fname, args):
+    st.frames = []
+    exf.call(st, fname, args)
+    return exf.run(st)
+
+
+def ov_compress(c):
+    data = c.args[0]
+    from mirsym.models import as_seq
+    src = as_seq(c.st, data)
+    n = c.st.env.get('comp_len', 2)
+    out = [Int(z3.BitVec(f'cmp{len(c.st.env.setdefault("comp", []))}_{i}', 8), False) for i in range(n)]
+    c.st.env['comp'].append((out, list(src.items(c.st))))
+    return Seq('u8', list(out))
+
+
+def ov_decompress(c):
+    from mirsym.models import as_seq, ok as _ok, err as _err
+    src = as_seq(c.st, c.args[0]).items(c.st)
+    for out, orig in c.st.env.get('comp', []):
+        if len(out) == len(src) and all(a.v.eq(b.v) for a, b in zip(out, src)):
+            return _ok(Seq('u8', list(orig)))
+    if c.st.choose(2, 'decompress unknown') == 0:
+        return _err(Opaque('TcpError'))
+    return _ok(Seq('u8', None, lazy=c.st.fresh_name('decompressed'), maxlen=3))
+
+
+exf.extra_models.update({'compress': ov_compress, 'compression::compress': ov_compress, 'tcp::compression::compress': ov_compress,
+                         'decompress': ov_decompress, 'compression::decompress': ov_decompress, 'tcp::compression::decompress': ov_decompress})
+
+
+def be32(bs):
+    return z3.Concat(*[b.v for b in bs])
+
+
+for L in (0, 1, 3):
+    for compress_on in (False, True):
+        for LC in ((2,) if not compress_on else (1, 3)):
+            st = exf.new_state()
+            st.env['codec_len'] = L
+            st.env['comp_len'] = LC
+            M = z3.BitVec('max_frame', 64)
+            msg = st.fresh('Message', 'msg')
+            st.roots['msg'] = msg
+            ccfg = Struct('CompressionConfig', {Pf.field('CompressionConfig', 'enabled'): z3.BoolVal(compress_on),
+                                                Pf.field('CompressionConfig', 'method'): Enum('CompressionMethod', CM['Lz4'], {}, variant='Lz4'),
+                                                Pf.field('CompressionConfig', 'min_size'): Int(z3.BitVec('min_size', 64), False)}, lazy='ccfg')
+            codec = Struct('LengthDelimitedCodec', {FC('max_frame_length'): Int(M, False), FC('compression'): ccfg, FC('compress_enabled'): z3.BoolVal(compress_on)})
+            st.roots['codec'] = codec
+            wit = lambda m, L=L, LC=LC, compress_on=compress_on: {'frame': True, 'payload_len': L, 'max_frame_length': mval(m, M), 'compress': compress_on, 'compressed_len': LC}
+            if not compress_on:
+                # ---- v1
+                for r in frun(st.clone(), 'LengthDelimitedCodec::encode', [ref(codec), ref(msg)]):
+                    if r.status not in ('return', 'panic'):
+                        ck.note_path_problem([r], 'encode')
+                        continue
+                    if r.status == 'panic':
+                        ck.require(exf, 'frame_v1', r.pc, None, z3.BoolVal(False), wit, lambda m, w: 'frame-panic')
+                        continue
+                    if r.retval.variant == 'Ok':
+                        fr = r.retval.fields[('Ok', 0)].items(r.st)
+                        img = r.st.env['codec'][0][0]
+                        good = len(fr) == 4 + L and all(a.v.eq(b.v) for a, b in zip(fr[4:], img))
+                        ck.require(exf, 'frame_v1', r.pc, None, z3.And(z3.BoolVal(good), be32(fr[:4]) == L if len(fr) >= 4 else z3.BoolVal(False), z3.UGE(M, L)), wit, lambda m, w: 'frame-v1-encode')
+                        # decode what was sent
+                        for r2 in frun(r.st, 'LengthDelimitedCodec::decode_payload', [ref(r.st.roots['codec']), ref(Seq('u8', list(fr[4:])))]):
+                            if r2.status == 'return':
+                                back = r2.retval
+                                okk = back.variant == 'Ok' and getattr(back.fields[('Ok', 0)], 'lazy', None) == 'msg'
+                                ck.require(exf, 'frame_v1', r2.pc, None, z3.BoolVal(okk), wit, lambda m, w: 'frame-v1-roundtrip')
+                            else:
+                                ck.note_path_problem([r2], 'decode_payload')
+                    else:
+                        ck.require(exf, 'frame_v1', r.pc, None, z3.ULT(M, L), wit, lambda m, w: 'frame-v1-refused')
+                # decode of an arbitrary payload longer than the limit is refused
+                pl = Seq('u8', [Int(z3.BitVec(f'p{i}', 8), False) for i in range(L)])
+                for r in frun(st.clone(), 'LengthDelimitedCodec::decode_payload', [ref(codec), ref(pl)]):
+                    if r.status == 'return':
+                        ck.require(exf, 'frame_v1', r.pc, z3.ULT(M, L), z3.BoolVal(r.retval.variant == 'Err'), wit, lambda m, w: 'frame-v1-oversize-accepted')
+            # ---- v2
+            for r in frun(st.clone(), 'LengthDelimitedCodec::encode_v2', [ref(codec), ref(msg)]):
+                if r.status == 'panic':
+                    ck.require(exf, 'frame_v2', r.pc, None, z3.BoolVal(False), wit, lambda m, w: 'frame-panic')
+                    continue
+                if r.status != 'return':
+                    ck.note_path_problem([r], 'encode_v2')
+                    continue
+                if r.retval.variant == 'Ok':
+                    fr = r.retval.fields[('Ok', 0)].items(r.st)
+                    body = len(fr) - 4
+                    good = body >= 1
+                    ck.require(exf, 'frame_v2', r.pc, None, z3.And(z3.BoolVal(good), be32(fr[:4]) == body if len(fr) >= 4 else z3.BoolVal(False), z3.UGE(M, body)), wit, lambda m, w: 'frame-v2-encode')
+                    for r2 in frun(r.st, 'LengthDelimitedCodec::decode_payload_v2', [ref(r.st.roots['codec']), ref(Seq('u8', list(fr[4:])))]):
+                        if r2.status == 'return':
+                            back = r2.retval
+                            okk = back.variant == 'Ok' and getattr(back.fields[('Ok', 0)], 'lazy', None) == 'msg'
+                            # a decompressed image larger than the limit may legitimately be refused
+                            ck.require(exf, 'frame_v2', r2.pc, z3.UGE(M, L), z3.BoolVal(okk), wit, lambda m, w: 'frame-v2-roundtrip')
+                        elif r2.status == 'panic':
+                            ck.require(exf, 'frame_v2', r2.pc, None, z3.BoolVal(False), wit, lambda m, w: 'frame-panic')
+                        else:
+                            ck.note_path_problem([r2], 'decode_payload_v2')
+                else:
+                    # refused only when flag + payload (raw or compressed) exceeds the limit
+                    ck.require(exf, 'frame_v2', r.pc, None, z3.Or(z3.ULT(M, 1 + L), z3.ULT(M, 1 + LC) if compress_on else z3.BoolVal(False)), wit, lambda m, w: 'frame-v2-refused')
+for r in frun(exf.new_state(), 'LengthDelimitedCodec::decode_payload_v2', [ref(Struct('LengthDelimitedCodec', {}, lazy='cd')), ref(Seq('u8', []))]):
+    if r.status == 'return':
+        ck.require(exf, 'frame_v2', r.pc, None, z3.BoolVal(r.retval.variant == 'Err'), lambda m: {'frame': True, 'empty': True}, lambda m, w: 'frame-v2-empty')
+    elif r.status == 'panic':
+        ck.require(exf, 'frame_v2', r.pc, None, z3.BoolVal(False), lambda m: {'frame': True, 'empty': True}, lambda m, w: 'frame-panic')
+for v in ck.violations:
+    if v['witness'].get('frame'):
+        rep = Replay.call({'op': 'tcp_frame', **v['witness']})
+        v['native'] = rep
+        v['replayed'] = rep.get('violates')
+
+ck.functions += ['LengthDelimitedCodec::encode', 'LengthDelimitedCodec::decode_payload', 'LengthDelimitedCodec::encode_v2', 'LengthDelimitedCodec::decode_payload_v2', 'length_prefix', 'varint_encode', 'varint_decode', 'delta_encode', 'delta_decode', 'compress_ids', 'decompress_ids',
                  'rle_encode', 'rle_decode', 'RleEncoded::len']
 if __name__ == '__main__':
     ck.finish()
